@@ -1108,7 +1108,7 @@ func (x *Exec) zero(t types.Type) smt.T {
 		return x.mkStruct(t, u, fs)
 	case *types.Array:
 		srt := x.sortOf(t)
-		return smt.Raw("((as const "+srt+") "+x.zero(u.Elem()).S+")", srt)
+		return x.zeroArray(srt, x.zero(u.Elem()))
 	}
 	return x.ctx.Const("zero$"+typeName(t), x.sortOf(t))
 }
@@ -1265,4 +1265,20 @@ func (x *Exec) structNotFresh(st *State, t types.Type, v smt.T) {
 			st.assume(x.notFresh(sArr(x.structField(t, u, i, v))))
 		}
 	}
+}
+
+// zeroArray is an array that holds zero everywhere. ((as const ...)) needs a value argument (cvc5 rejects uninterpreted
+// constants there), so for other element sorts a named array with a defining axiom is used.
+func (x *Exec) zeroArray(srt string, zero smt.T) smt.T {
+	switch zero.S {
+	case "0", "false", "true":
+		return smt.Raw("((as const "+srt+") "+zero.S+")", srt)
+	}
+	if strings.HasPrefix(zero.S, "(mkslice 0 0 0 0)") {
+		return smt.Raw("((as const "+srt+") "+zero.S+")", srt)
+	}
+	name := "zarr$" + sortTag(srt) + "$" + fmt.Sprintf("%x", hashStr(zero.S))
+	a := x.ctx.Const(name, srt)
+	x.axioms["zarr:"+name] = "(assert (forall ((i!z Int)) (! (= (select " + a.S + " i!z) " + zero.S + ") :pattern ((select " + a.S + " i!z)))))"
+	return a
 }
